@@ -44,7 +44,8 @@ def oracle_wellformed_only(case):
 
     text = case["body"][1]
     try:
-        gen.strict_json_loads(text)
+        if not gen.all_finite(gen.strict_json_loads(text)):
+            raise Skip()   # R12: value reached by an overflowing spelling
     except gen.NonStandard:
         raise Skip()
     except (ValueError, RecursionError):
@@ -61,6 +62,69 @@ def oracle_wellformed_only(case):
     return Info(nt=True, classes=[case.get("cls", "other"), "v%.1f" % case["version"]],
                 key=(text, case["version"], case["jsonclass"]),
                 sample={"body": text[:120] + ("..." if len(text) > 120 else ""), "len": len(text), "reply": out[:160]})
+
+
+def oracle_http(case):
+    """The same bodies through the real HTTP request handler (do_POST): 200, exact
+    Content-length, body identical to the dispatcher's text"""
+    from vlib.loopback import post_to_handler
+
+    text = refmodel.render_body(case["body"], case.get("ascii", True))
+    try:
+        raw = text.encode("utf-8")
+    except UnicodeEncodeError:
+        raise Skip()   # not a character sequence that can travel
+    try:
+        if not gen.all_finite(gen.strict_json_loads(text)):
+            raise Skip()   # R12
+    except gen.NonStandard:
+        raise Skip()
+    except (ValueError, RecursionError):
+        pass
+    registry = refmodel.Registry(jsonclass=case["jsonclass"])
+    disp, dm, registry, cfg = refmodel.make_dispatcher(case["version"], case["jsonclass"], "funcs", registry)
+    expected = disp._marshaled_dispatch(text)
+    n_before = len(registry.log)
+    status, headers, reply, reads = post_to_handler(disp, raw, case.get("sizes", []))
+    if " 200 " not in status + " ":
+        fail("C02/http-status", "do_POST answered %r for body %r" % (status, text[:200]), {"reply": repr(reply[:300])})
+    got = {}
+    for k, v in headers:
+        got.setdefault(k.lower(), []).append(v)
+    if got.get("content-length") != [str(len(reply))]:
+        fail("C02/http-content-length", "Content-length %r for a reply of %d bytes" % (got.get("content-length"), len(reply)))
+    try:
+        reply_text = reply.decode("utf-8")
+    except UnicodeDecodeError as ex:
+        fail("C02/http-reply-not-utf8", "reply body is not UTF-8: %s" % ex)
+    if not same_json_or_text(reply_text, expected):
+        fail("C02/http-body", "HTTP reply %r differs from the dispatcher's text %r" % (reply_text[:200], expected[:200]))
+    if len(registry.log) != 2 * n_before:
+        fail("C02/http-invocations", "the handler path invoked callables %d times, the direct path %d times" % (len(registry.log) - n_before, n_before))
+    got_objs, single = refmodel.parse_reply(reply_text)
+    for o in got_objs:
+        refmodel.check_response_object(o)
+    classes = ["http", "v%.1f" % case["version"], "body:" + case["body"][0], "reads:%d" % min(len(reads), 5)]
+    return Info(nt=bool(got_objs) and any(o.get("error") for o in got_objs), classes=classes,
+                key=(text, case["version"], case["jsonclass"], tuple(case.get("sizes", []))),
+                sample={"body": text[:200], "status": status, "reply": reply_text[:160]})
+
+
+def same_json_or_text(a, b):
+    if a == b:
+        return True
+    try:
+        import json
+        return gen.strict_eq(json.loads(a), json.loads(b))
+    except ValueError:
+        return False
+
+
+@st.composite
+def http_cases(draw):
+    case = draw(st.one_of(dc.grammar_cases(modes=["funcs"]), dc.damage_cases()))
+    case["sizes"] = draw(st.lists(st.integers(1, 200), max_size=6))
+    return case
 
 
 def depth_cases(tier):
@@ -129,6 +193,9 @@ SUBS = [
     Sub("damage-exhaustive", oracle, enumerate=dc.exhaustive_damage_cases,
         shards={"quick": 8, "thorough": 8}, time_cap={"quick": 120, "thorough": 900},
         what="every truncation/deletion and 16 substitutions+insertions at every index of 8 valid texts"),
+    Sub("http", oracle_http, strategy=lambda tier: http_cases(),
+        budget={"quick": 3000, "thorough": 60000}, shards={"quick": 6, "thorough": 16},
+        what="the same bodies through the real do_POST handler: status 200, exact Content-length, body equals the dispatcher text"),
     Sub("depth", oracle_wellformed_only, enumerate=depth_cases, shards={"quick": 4, "thorough": 8},
         what="nesting depth sweeps around the recursion limits"),
     Sub("descriptors", oracle_wellformed_only, strategy=lambda tier: descriptor_cases(),
